@@ -87,9 +87,15 @@ func ZZC11(mode, script, varspec, metaSpec, flags string) {
 
 	case "determinism":
 		ff := zzFlags(flags)
-		s1 := zzNewStore("exact", e, meta)
+		// with metadata in the store: a store that volunteers all it has (so that entries
+		// next to the requested ones are in the maps the run walks)
+		kind := "exact"
+		if metaSpec != "" {
+			kind = "superset"
+		}
+		s1 := zzNewStore(kind, e, meta)
 		r1, e1 := e.pr.RunWithFeatureFlags(ctx, e.varsMap, s1, ff)
-		s2 := zzNewStore("exact", e, meta)
+		s2 := zzNewStore(kind, e, meta)
 		zzvrt.MapOrder(true)
 		r2, e2 := e.pr.RunWithFeatureFlags(ctx, e.varsMap, s2, ff)
 		zzvrt.MapOrder(false)
@@ -157,6 +163,19 @@ func ZZC11(mode, script, varspec, metaSpec, flags string) {
 				zzvrt.Assert(ok && len(now) == len(am), "C11:store-answers-unchanged")
 				for k, v := range am {
 					zzvrt.Assert(now[k] == v, "C11:store-answers-unchanged")
+				}
+			}
+		}
+		// the same for balances: a store that hands out the very numbers it keeps finds them
+		// unchanged afterwards (the run may read them, it may not compute in them)
+		st2 := zzNewStore("interned", e, meta)
+		_, _ = e.pr.RunWithFeatureFlags(ctx, e.varsMap, st2, ff)
+		for acc, m := range st2.truth {
+			for as, v := range m {
+				was, ok := e.start[zzKey(acc, as)]
+				zzvrt.Assert(ok, "C11:store-numbers-unchanged")
+				if ok {
+					zzvrt.Assert(zzvrt.Eq(v, was), "C11:store-numbers-unchanged")
 				}
 			}
 		}
